@@ -77,6 +77,8 @@ class P:
         f = line.split(" ")
         if f[0] == "pstall":
             return ("stall", int(f[1]), int(f[2]), int(f[3]), int(f[4]), " ".join(f[5:]))
+        if f[0] == "pmove":
+            return ("move", int(f[1]), int(f[2]), [], [bytes.fromhex(x[1:]) for x in f[f.index("M") + 1:]])
         fi, mi = f.index("F"), f.index("M")
         fs = [int(x) for x in f[fi + 1:mi]]
         return (f[1], int(f[2]), int(f[3]), [tuple(fs[i:i + 3]) for i in range(0, len(fs), 3)], [bytes.fromhex(x[1:]) for x in f[mi + 1:]])
@@ -151,11 +153,45 @@ class P:
             line = "producer %s %d %d F %s M %s" % (proto, retry, gap, " ".join("%d %d %d" % f for f in faults), " ".join(hx(m) for m in msgs))
             self.meta[line] = (proto, retry, gap, faults, msgs)
             out.append(line)
+        # the sink is configured by NAME; the name has two addresses; the sink goes away and a standby takes over under the same name
+        # on the other address: "the sink is reachable again" is meant as the configuration names it
+        for i in range(3 if tier == "quick" else 12):
+            retry = rng.choice([0, 1, 2, 3])
+            msgs = [self.rand_msg(rng, j) for j in range(rng.choice([24, 45]))]
+            line = "pmove %d %d M %s" % (retry, 4, " ".join(hx(m) for m in msgs))
+            self.meta[line] = ("move", retry, 4, [], msgs)
+            out.append(line)
         return out
+
+    def judge_move(self, line, impl):
+        _, retry, gap, _, msgs = self.info(line)
+        if impl.startswith("SINK-ERROR"):
+            return None          # the environment would not give the sink its sockets: nothing is said about the producer
+        if "PANIC" in impl or "HANG" in impl or not impl.startswith("LINES"):
+            return "producer crashed or hung: " + impl[-120:]
+        m = re.match(r"LINES (.*?) ?\| EC=(\d+) \| MOVED_AFTER=(\d+)", impl)
+        got = [bytes.fromhex(x[1:]) for x in m.group(1).split(" ") if x]
+        index = {mm + b"\n": j for j, mm in enumerate(msgs)}
+        last = -1
+        for g in got:
+            if g not in index:
+                return "the sink received %r..., which is not a message handed to the producer plus a newline" % g[:70]
+            if index[g] <= last:
+                return "message %d was delivered %s" % (index[g], "twice" if index[g] == last else "out of order")
+            last = index[g]
+        lost = len(msgs) - len(got)
+        if last != len(msgs) - 1:
+            return ("the sink (configured by name, two addresses) went away after %s lines and came back under the same name on its other address: delivery did "
+                    "not resume: the last message delivered is %d of %d, MQErrorCount=%s (retry-max %d)" % (m.group(3), last, len(msgs) - 1, m.group(2), retry))
+        if lost > 8 + 2 * retry:
+            return "%d messages lost around the move of the sink to its other address (retry-max %d)" % (lost, retry)
+        return None
 
     def judge(self, line, impl, model):
         if self.info(line)[0] == "stall":
             return self.judge_stall(line, impl)
+        if self.info(line)[0] == "move":
+            return self.judge_move(line, impl)
         proto, retry, gap, faults, msgs = self.info(line)
         if "RUN=dial_" in impl and faults and faults[0][0] == 0:
             return None      # the sink reset the very first connection while it was being set up: the producer never started (setup error)
@@ -195,6 +231,8 @@ class P:
         return None
 
     def classify(self, line, impl, model):
+        if self.info(line)[0] == "move":
+            return ("tcp sink by name, moves to its other address", line if impl.startswith("LINES") else None)
         if self.info(line)[0] == "stall":
             return ("tcp stalling sink: " + re.sub(r"\d+", "N", self.info(line)[5]), line)
         proto, retry, gap, faults, msgs = self.info(line)
